@@ -300,4 +300,11 @@ example : splitRanges 5 [1, 3] = [[0], [1, 2], [3, 4]] ∧ kfoldRanges 5 3 = [[0
 example : (blockKFoldTests [0, 0, 1, 2, 2, 2, 3] ⟨2, true, none⟩).toOption = some (false, [[0, 1, 2], [3, 4, 5, 6]]) := by
   decide +kernel
 
+/-! ### The regenerated source satisfies the property -/
+/-- The translated `partition_by_sum`: an accepted result has `parts − 1` distinct, non-decreasing split points, not starting at 0. -/
+theorem src_partition_by_sum_spec (sizes : List Nat) (parts : Nat) (idx : List Nat) (h : Gen.partitionBySum sizes parts = .ok idx) :
+    idx.length = parts - 1 ∧ idx.Nodup ∧ idx.Pairwise (· ≤ ·) ∧ idx.head? ≠ some 0 ∧ (∀ p ∈ idx, p ≤ sizes.length) ∧ parts ≤ sizes.length := by
+  rw [gen_partition_by_sum_eq_model] at h
+  exact partition_by_sum_spec sizes parts idx h
+
 end Verde.C11
